@@ -181,6 +181,25 @@ def apiOp (op : String) (args : List String) : Option String :=
   | "ReadObject", [d] => do let d ← hexToBytes d; pure (fmtR (readObject d) JVal.render)
   | "ReadArray", [d] => do let d ← hexToBytes d; pure (fmtR (readArray d) JVal.render)
   | "FloatPath", [d] => do let d ← hexToBytes d; pure (FP.parse d).path.name
+  | "getu4", [d] => do
+    let d ← hexToBytes d
+    pure (match getu4 d 0 with | some v => toString v | none => "-1")
+  | "unescapeUnicodeChar", [d, dst] => do
+    let d ← hexToBytes d; let dst ← hexToBytes dst
+    let (o, n, ok) := unescapeUnicodeChar d 0 dst
+    pure s!"{hexOrDash o} {n} {boolStr ok}"
+  | "skipFloatDec", [d, p] => do
+    let d ← hexToBytes d; let p ← p.toNat?
+    pure (match skipFloatDec d p d.size with
+      | none => "panic"
+      | some (q, none) => s!"ok {q}"
+      | some (q, some e) => s!"err:{e.name} {q}")
+  | "skipFloatExp", [d, p] => do
+    let d ← hexToBytes d; let p ← p.toNat?
+    pure (match skipFloatExp d p d.size with
+      | none => "panic"
+      | some (q, none) => s!"ok {q}"
+      | some (q, some e) => s!"err:{e.name} {q}")
   | "fpReadFloat", [d] => do
     let d ← hexToBytes d
     let r := FP.readFloat d
